@@ -112,6 +112,19 @@ class MArr:
     def __len__(self):
         return self.shape[0] if self.shape else 0
 
+    def __getitem__(self, k):
+        """1-D slicing (also strided): a view in numpy, non-contiguous for
+        a step other than 1"""
+        if self.ndim != 1 or not isinstance(k, slice):
+            raise AnalysisError("indexing of a model array other than 1-D "
+                                "slicing is not modelled")
+        isz = self.dtype.itemsize
+        items = [self.raw[i * isz:(i + 1) * isz] for i in range(self.size)]
+        sel = items[k]
+        step = k.step if k.step is not None else 1
+        return MArr(b"".join(sel), self.dtype.str, (len(sel),),
+                    contiguous=(step == 1))
+
     def __str__(self):
         # numpy abbreviates: lossy on purpose
         return f"[{self.raw[0]} ... {self.raw[-1]}]"
@@ -270,7 +283,9 @@ class Model:
                 "np", ndarray=L.ModelType(
                     "ndarray", lambda o: isinstance(o, MArr)),
                 ascontiguousarray=_ascontig, asarray=lambda a, *r, **k: a,
-                uint8="uint8"),
+                uint8="uint8", ceil=__import__("math").ceil,
+                floor=__import__("math").floor,
+                sqrt=__import__("math").sqrt),
             "MAX_SIZE": max_size,
             "type": _model_type, "id": id, "map": map, "filter": filter,
             "bytearray": bytearray, "memoryview": lambda b: b,
